@@ -32,6 +32,7 @@ GetClauses(e) ==
       single == P.concrete \/ P.mt \in {"first", "last", "single"} \/ P.parts = <<>>
   IN IF ~RecipeOk(e) THEN << <<"Skip", TRUE>> >> ELSE
      << <<"PathConstruction", PathSame(e.proj, P)>>,
+        <<"ModifierReturnsCopy", e.mods_pure>>,
         <<"NeverRaises", (x.status = "ok") => ok>>,
         <<"SingleRefusesSeveral", (x.status = "raised:ValueError") =>
               (e.outcome = "raised:ValueError" /\ e.outcomep = "raised:ValueError")>>,
